@@ -6,13 +6,11 @@ package main
 // against the simos world.
 
 import (
-	"context"
 	"fmt"
+	realos "os"
 	"runtime/debug"
 	"strings"
 
-	"github.com/go-gts/flags"
-	"github.com/go-gts/gts"
 	"github.com/go-gts/gts/internal/verifsim/simos"
 	"github.com/go-gts/gts/seqio"
 )
@@ -45,11 +43,15 @@ type procResult struct {
 	Fired  []string
 }
 
-// runGts runs one gts invocation as a simulated process on w. It is the
-// stand-in for flags.Run + os.Exit of cmd/gts/main.go.
+// runGts runs one gts invocation as a simulated process on w by calling the
+// real main function of cmd/gts. flags.Run (a dependency, not rewritten) takes
+// its arguments from the real os.Args, which is set here, and prints error
+// text to the real stderr, which main() of the driver points at /dev/null;
+// stderr text is not part of any oracle.
 func runGts(w *simos.World, argv []string, spec simos.ProcSpec) (res procResult) {
 	simos.W = w
 	resetProcessGlobals()
+	resetMainGlobals()
 	p := w.StartProc(spec)
 	simos.Args = append([]string{"gts"}, argv...)
 	status := 0
@@ -74,21 +76,11 @@ func runGts(w *simos.World, argv []string, spec simos.ProcSpec) (res procResult)
 				}
 			}
 		}()
-		for _, a := range argv {
-			if a == "--version" {
-				// flags.Run prints to the real stdout; same bytes here.
-				p.Stdout.Write([]byte(fmt.Sprintln(gts.Version)))
-				return
-			}
-		}
-		name, desc := "gts", "the genome transformation subprograms command line tool"
-		ctx := &flags.Context{Name: []string{name}, Desc: desc, Args: argv, Ctx: context.Background()}
-		if err := flags.Compile()(ctx); err != nil {
-			status = 1
-			if !p.Crashed {
-				p.Stderr.Write([]byte(fmt.Sprintln(err)))
-			}
-		}
+		// The real main of cmd/gts (renamed by the rewriter): flags.Run reads
+		// the process arguments, the command runs, os.Exit (the simulated one)
+		// unwinds with the status.
+		realos.Args = append([]string{"gts"}, argv...)
+		gtsRealMain()
 	}()
 	if p.Crashed {
 		res.Killed = true
